@@ -133,7 +133,8 @@ Print Assumptions C02_agreement_edit.
 (* The agreement clause for whole SETTLED SCHEDULES: a running player (playing or paused on an
    entry of a tracklist whose entries are all playable, consume off) stays settled - core and
    audio layer agree on entry and state, nothing pending - through EVERY finite sequence of
-   client commands pause / resume / next / previous / play(tlid) / seek within the track, each
+   client commands pause / resume / next / previous / play(tlid) / seek within the track and
+   natural ends of the playing track (about-to-finish with the announced successor), each
    issued after the notifications of the previous one were delivered (`ok`: the command fits
    the state, the announced successor/predecessor exists, the tlid exists, the seek is within
    the track). *)
